@@ -123,6 +123,11 @@ def run(ctx, res):
         elif 3 <= i < 3 + len(ENDINGS):
             # how the code ends decides whether the writer must add the line feed that separates it from `__gfx__`
             code = rng.choice([b'x=1', b'-- done', b'x="s"', b'y=2\nx=1']) + ENDINGS[i - 3]
+        elif i % 4 == 3:
+            # text lines inside strings / comments that begin like (or, in glyphs, look like) something the format gives a meaning to
+            import gen_lua
+            looks = gen_lua.lookalike_programs()
+            code = looks[0 if i < 24 else (i * 13) % len(looks)] + rng.choice([b'', gen_code.gen_code(rng)])
         else:
             code = gen_code.gen_code(rng, crlf=(rng.random() < 0.15))
         check_cart(ctx, res, code, regs, version, label, 'cart', batch)
